@@ -473,20 +473,90 @@ int main(int argc, char **argv) {
   hsg_fields.push_back(FP(HydroDensitySubGrid, _primitive_variable_limiters));
   Hydro hydro(5. / 3., 100., 1.e4, 1.e99, false);
 
+  // subgrid boxes: cubic cells of both inverse-cell-size classes, and
+  // anisotropic cells for which the association order of the derived
+  // quantities matters: (dx*dy)*dz, dx*(dy*dz), (dx*dz)*dy do not all agree
+  struct SubSpec {
+    std::string state, tag;
+    double box[6];
+    int n[3];
+  };
+  std::vector< SubSpec > specs;
   for (auto &sd : sides)
     for (int n : {3, 6}) {
       const bool differs = inverse_differs(sd.second, n);
-      const std::string tag = differs ? "non-dyadic-cell-size" : "";
-      const double box[6] = {-0.5 * sd.second, 0.25 * sd.second, 0., sd.second, sd.second, 2. * sd.second};
-      const CoordinateVector< int_fast32_t > ncell(n, n, 2 * n);
-      const std::string state = fmt("side %s, %d cells (n/s %s 1/(s/n))", sd.first.c_str(), n, differs ? "!=" : "==");
+      SubSpec sp;
+      sp.tag = differs ? "non-dyadic-cell-size" : "";
+      const double b[6] = {-0.5 * sd.second, 0.25 * sd.second, 0., sd.second, sd.second, 2. * sd.second};
+      memcpy(sp.box, b, sizeof(b));
+      sp.n[0] = n;
+      sp.n[1] = n;
+      sp.n[2] = 2 * n;
+      sp.state = fmt("side %s, %d cells (n/s %s 1/(s/n))", sd.first.c_str(), n, differs ? "!=" : "==");
+      specs.push_back(sp);
+    }
+  {
+    struct Cand {
+      double s[3];
+      int n[3];
+    };
+    std::vector< Cand > cand = {{{1., 1., 2.}, {10, 10, 12}}, {{0.5, 0.5, 2.}, {5, 5, 12}}};
+    const double sv[] = {0.7, 0.9, 1.1, 1.3, 1.7, 3.};
+    for (double x : sv)
+      for (double y : sv)
+        for (double z : sv)
+          if (!(x == y && y == z))
+            for (int n : {3, 6})
+              cand.push_back({{x, y, z}, {n, n, n}});
+    unsigned covered = 0, nsel = 0, nagree = 0;
+    for (auto &c : cand) {
+      const double dx = c.s[0] / c.n[0], dy = c.s[1] / c.n[1], dz = c.s[2] / c.n[2];
+      const double v1 = (dx * dy) * dz, v2 = dx * (dy * dz), v3 = (dx * dz) * dy;
+      const unsigned pairs = (v1 != v2 ? 1u : 0u) | (v1 != v3 ? 2u : 0u) | (v2 != v3 ? 4u : 0u);
+      bool take = false;
+      if (pairs == 0 && nagree < 1) {
+        take = true; // one anisotropic box on which all orders agree
+        ++nagree;
+      } else if (pairs && (nsel < 2 || (pairs & ~covered)) && nsel < 5) {
+        take = true;
+        ++nsel;
+        covered |= pairs;
+      }
+      if (!take)
+        continue;
+      SubSpec sp;
+      bool invd = false;
+      for (int i = 0; i < 3; ++i)
+        invd = invd || inverse_differs(c.s[i], c.n[i]);
+      sp.tag = pairs ? "non-associative-cell-products" : (invd ? "non-dyadic-cell-size" : "");
+      const double b[6] = {-0.5 * c.s[0], 0.25 * c.s[1], 0., c.s[0], c.s[1], c.s[2]};
+      memcpy(sp.box, b, sizeof(b));
+      for (int i = 0; i < 3; ++i)
+        sp.n[i] = c.n[i];
+      sp.state = fmt("box %g x %g x %g m, %d x %d x %d cells: (dx*dy)*dz = %a, dx*(dy*dz) = %a, (dx*dz)*dy = %a",
+                     c.s[0], c.s[1], c.s[2], c.n[0], c.n[1], c.n[2], v1, v2, v3);
+      specs.push_back(sp);
+    }
+    R.set("subgrid_boxes_non_associative_cell_products", nsel);
+    R.set("subgrid_product_order_pairs_covered_bitmask", covered);
+    if (nsel < 2)
+      R.violation("C09:geometry-alphabet-incomplete",
+                  fmt("need two subgrid boxes for which the orders of dx*dy*dz do not all agree, found %u", nsel));
+  }
+  for (auto &sp : specs) {
+    {
+      const std::string &tag = sp.tag;
+      const double *box = sp.box;
+      const CoordinateVector< int_fast32_t > ncell(sp.n[0], sp.n[1], sp.n[2]);
+      const std::string &state = sp.state;
+      const int ntot = sp.n[0] * sp.n[1] * sp.n[2];
       if (WANT("DensitySubGrid")) {
         DensitySubGrid g(box, ncell);
         for (int i = 0; i < TRAVELDIRECTION_NUMBER; ++i) {
           g._ngbs[i] = (i * 7) % 5;
           g._active_buffers[i] = NEIGHBOUR_OUTSIDE;
         }
-        for (int i = 0; i < n * n * 2 * n; ++i)
+        for (int i = 0; i < ntot; ++i)
           fill_ionization(g._ionization_variables[i], i % 5);
         check_object< DensitySubGrid >("DensitySubGrid", state, g, dsg_fields, nullptr, nullptr, tag);
       }
@@ -523,6 +593,7 @@ int main(int argc, char **argv) {
             &g, tag);
       }
     }
+  }
 
   // --- the subgrid creator (whole grid) on all three layouts
   if (WANT("DensitySubGridCreator")) {
